@@ -150,6 +150,56 @@ CHECKS["C29"] = dict(
     technique="translator + kernel-checked decision procedure over all bundled dialects (complete enumeration)", design_ref="§33",
 )
 
+CHECKS["C02"] = dict(
+    category="proof",
+    text=("Coq theorem C02_apply_lossless proves for every match result (any size, nesting, inserts) accepted by the verified certificate checker "
+          "wf_b that MatchResult.apply succeeds and the token leaves of the forest it builds are exactly tokens start..stop-1, once each, in "
+          "order (tokens are indices, so loss, duplication and reordering are all visible); C02_unordered_children_duplicate_refuted shows what "
+          "apply does without the certificate. The model (append, wrap, apply) is tied to the real class by exhaustive small-scope and seeded "
+          "random correspondence including malformed results (compared as whole trees or exception class). The certificate is evaluated in Coq "
+          "on the root MatchResult of real parses, and every parse of the corpus (all dialects, fixtures + token-level mutations) is checked end "
+          "to end: tree leaves = lexer tokens with text and both positions, unparsable nodes = PRS errors. PARTIAL: that every grammar combinator "
+          "only produces certified results is validated per parse, not proved (the combinator engine is not modelled)."),
+    note=("Trusted: Coq kernel, hand model Model/MatchResult.v (correspondence-checked), harness conversion of real MatchResults to model terms, "
+          "segment classes' from_result_segments (checked end to end). No axioms."),
+    technique="Coq proof of tree construction + run-time certificate checking of real parses (translation validation) + correspondence",
+    design_ref="§6",
+)
+CHECKS["C03"] = dict(
+    category="proof",
+    text=("Coq theorem C03_nodes_span_children_in_order proves that in every forest built from a certified match result each node covers a "
+          "contiguous increasing run of tokens equal to the concatenation of its children's runs, at every depth (nodes span exactly their "
+          "children; children are in positional order). The real trees of the corpus (all dialects, fixtures + mutations incl. unbalanced "
+          "brackets and truncation) are walked: templated span = first child..last child, source span = hull, child order, no non-code ends "
+          "except file/unparsable, running indent balance >= 0 and 0 at the end. PARTIAL: indent balance and trimmed ends depend on the 28 "
+          "dialect grammars and the combinators, which are monitored, not proved; open finding F19 (balance on inputs with unparsable sections)."),
+    note=("Trusted: Coq kernel, Model/MatchResult.v (tied to the code by C02's correspondence), harness/treecheck.py walker. No axioms."),
+    technique="Coq proof over the tree-construction model + end-to-end tree walk of real parses", design_ref="§7",
+)
+CHECKS["C04"] = dict(
+    category="proof",
+    text=("PARTIAL. Proved in Coq: the exception funnel of the lint pipeline (C04_funnel_total_partial: for every combination of stage outcomes, "
+          "if templater/lexer/parser raise only their documented exception class and rule evaluation raises any Exception, lint returns "
+          "violations; C04_other_exception_propagates: nothing else is swallowed) and C04_apply_never_raises (tree construction cannot raise on "
+          "a certified result). The funnel model is tied to the real Linter by fault injection: every stage x 12 exception classes x "
+          "parse/lint/fix. Not provable here: that Jinja, regex, the grammar combinators and ~90 rule bodies raise nothing else -- that part is "
+          "a crash search over fixtures, mutations and hostile inputs (deep nesting, node limit, unbalanced brackets, NUL/surrogates) through "
+          "Linter, the simple API and three templaters."),
+    note=("Trusted: Coq kernel, hand model Model/Funnel.v, fault-injection wrappers. The universal no-crash statement over opaque components is "
+          "explored, not proved. No axioms."),
+    technique="Coq proof of the exception funnel + fault-injection correspondence + crash search", design_ref="§8",
+)
+CHECKS["C05"] = dict(
+    category="proof",
+    text=("PARTIAL. Proved in Coq: C05_unexpected_iff_eval_raised -- for every sequence of _eval outcomes the crawl reports an 'Unexpected "
+          "exception' violation iff some _eval raised, at most one per rule -- so the monitored predicate is equivalent to 'no rule raised'. "
+          "Rule bodies are not modelled: all rules (default and a table of non-default options) run in lint and fix mode on fixtures of every "
+          "dialect and their mutations (partly unparsable trees); any 'Unexpected exception' violation or escaping exception is a violation."),
+    note=("Trusted: Coq kernel, Model/Funnel.v crawl (tied by C04's fault injection at the rule stage). Universal statement over rule bodies is "
+          "explored, not proved. No axioms."),
+    technique="Coq proof of the crawl funnel (monitor soundness/completeness) + rule sweep over corpus and mutations", design_ref="§9",
+)
+
 NOT_YET = "no check built yet in this round (planned: see DESIGN.md section for this property)"
 
 
